@@ -378,6 +378,26 @@ DEFAULTS = [["lit", "5"], ["lit", "0"], ["lit", "abc"], ["lit", "x y"], ["lit", 
 BAD_DEFAULTS = [["lit", "(a)"], ["lit", ""], ["lit", "it's"], ["lit", "'q'"]]
 
 
+def near_miss(rnd, d):
+    """a default that differs from d only slightly: letter case, a surrounding blank, a trailing character (stays in dflt_ok)"""
+    if d is None: return None
+    kind, txt = d
+    inner, pre, post = txt, "", ""
+    if kind == "expr" and len(txt) >= 3 and txt[0] == txt[-1] == "'":
+        inner, pre, post = txt[1:-1], "'", "'"
+    elif kind == "expr" and len(txt) >= 3 and txt[0] == "(" and txt[-1] == ")":
+        inner, pre, post = txt[1:-1], "(", ")"
+    quoted = kind == "lit" or pre == "'"
+    choices = []
+    if inner.swapcase() != inner: choices += [inner.swapcase(), inner.upper() if inner.upper() != inner else inner.lower()]
+    if quoted:                          # inside a literal anything goes: a trailing character, surrounding blanks
+        choices += [inner + "x", inner + "0", inner + " ", " " + inner]
+    elif not choices:                   # a bare SQL expression must stay valid SQL: keywords only change case, numbers gain a digit
+        choices += [inner + "0"]
+    new = rnd.choice(choices)
+    return [kind, pre + new + post]
+
+
 def gen_default(rnd, p=0.35):
     return list(rnd.choice(DEFAULTS)) if rnd.random() < p else None
 
@@ -540,7 +560,7 @@ def mutate(rnd, S, kind=None):
         if kind == "null":
             c[3] = not c[3]
         elif kind == "default":
-            d = gen_default(rnd, 0.75)
+            d = near_miss(rnd, c[5]) if (c[5] is not None and rnd.random() < 0.4) else gen_default(rnd, 0.75)
             if d == c[5]: return None, None
             c[5] = d
         elif kind == "type":
@@ -669,7 +689,7 @@ def gen_mutation(rnd, A, kind):
     if kind == "change_default":
         if not nonpk: return None
         c = rnd.choice(nonpk)
-        d = gen_default(rnd, 0.7)
+        d = near_miss(rnd, c[5]) if (c[5] is not None and rnd.random() < 0.5) else gen_default(rnd, 0.7)
         if norm_default(d) == norm_default(c[5]): return None
         return [kind, t["name"], c[0], d]
     if kind == "add_fk":
